@@ -233,7 +233,7 @@ Qed.
 
 (* the same count, read as "not resolved" (firing): when every stored alert has a non-zero end (the API always
    sets one) an alert that is not resolved at t has t < EndsAt and is among those counted above *)
-Lemma firing_counted a t : a_ends a <> 0 -> resolved a t = false -> t <= a_ends a.
+Lemma firing_counted a t : a_ends a <> zero_time -> resolved a t = false -> t <= a_ends a.
 Proof. unfold resolved. intros H0 H. apply andb_false_iff in H as [H|H]; lia. Qed.
 
 (* re-sends of admitted alerts are always accepted: in any reachable state, an alert the store holds and that has
